@@ -339,6 +339,11 @@ def gen(rng, tier, prop):
         ops.append({'op': 'read', 'name': '', 'as': rng.choice(['D', 'L', 'M'])})
     if not torn or rng.random() < 0.5:
         reads(order)
+    if not torn and rng.random() < 0.06:
+        # a header of an unknown file type in front of everything read next
+        ops.append({'op': 'alien', 'flag': rng.choice([0x10, 0x02, 0x7f, 0xff])})
+        ops.append({'op': 'read', 'name': 'NOSUCH', 'as': rng.choice(['D', 'L', 'M'])})
+        reads(list(written))
     if torn:
         ops.append({'op': 'tear', 'mode': rng.choice(['trunc', 'trunc', 'flip', 'flip']),
                     'frac': rng.choice([rng.random(), rng.random(), 0.999, 0.0, rng.random() * 0.1]),
@@ -1165,6 +1170,37 @@ class Exec(object):
         self.run.state(self.cfg['image'], 'tear', self.torn_mode, len(t.files) - nf, nf, min(9, int(10.0 * (at - s) / span)))
         self.driver()
 
+    # -- alien header -----------------------------------------------------
+
+    def do_alien(self, op):
+        """
+        Append a file whose header carries a type flag no BASIC version writes, with a valid checksum (a tape
+        from another system). It is recorded by the engine itself under a temporarily altered type table -
+        a harness-side fabrication of input, like the tear. From here on the tape counts as damaged: passing
+        over that header may give any BASIC error but no internal error and no stuck device.
+        """
+        t = self.tape
+        if t.torn_from is not None:
+            return
+        self.driver()
+        if not self.to_end():
+            self.resync('to-end-failed')
+            return
+        from pcbasic.basic.devices import cassette
+        old = cassette.TYPE_TO_TOKEN[b'D']
+        cassette.TYPE_TO_TOKEN[b'D'] = int(op.get('flag', 0x10))
+        try:
+            self.ex(b'OPEN "CAS1:ALIEN" FOR OUTPUT AS 1')
+            self.ex(b'PRINT#1,"alien data"')
+            self.ex(b'CLOSE')
+        finally:
+            cassette.TYPE_TO_TOKEN[b'D'] = old
+        self.torn_mode = 'alien'
+        t.torn_from = len(t.files)
+        self.run.fault('torn-file:alien-header')
+        self.w.log.add('alien', op.get('flag', 0x10))
+        self.restart()
+
     # -- main -------------------------------------------------------------
 
     def go(self):
@@ -1179,6 +1215,8 @@ class Exec(object):
                 self.restart()
             elif k == 'tear':
                 self.do_tear(op)
+            elif k == 'alien':
+                self.do_alien(op)
         self.close()
 
 
